@@ -270,11 +270,11 @@ func c18LimitGen(timed bool) func(rt *rapid.T) c18Case {
 }
 
 func TestVerif_C18_limit(t *testing.T) {
-	kit.Run(t, c18ID, "limit", kit.Opts{Quick: 6000, Thorough: 320000}, c18LimitGen(false),
+	kit.Run(t, c18ID, "limit", kit.Opts{Quick: 6000, Thorough: 240000}, c18LimitGen(false),
 		func(c c18Case) kit.Verdict { return c18LimitInterp(t, c, false) })
 }
 
 func TestVerif_C18_timeoutlimit(t *testing.T) {
-	kit.Run(t, c18ID, "timeoutlimit", kit.Opts{Quick: 6000, Thorough: 320000}, c18LimitGen(true),
+	kit.Run(t, c18ID, "timeoutlimit", kit.Opts{Quick: 6000, Thorough: 240000}, c18LimitGen(true),
 		func(c c18Case) kit.Verdict { return c18LimitInterp(t, c, true) })
 }
